@@ -617,3 +617,6 @@ CHECKS['C04'].update(text=CHECKS['C04']['text'] + ' T14: the functions that reco
 CHECKS['C01'].update(text=CHECKS['C01']['text'] + ' T15 (comparator result held at full width) as under C04.')
 CHECKS['C16'].update(text=CHECKS['C16']['text'] + ' TB14 also evaluates digit tables initialised from string literals, reads the escaped byte with the '
                      'signedness of the expression that holds it (plain char is signed) and treats an index outside the table as a violation.')
+CHECKS['C17'].update(text=CHECKS['C17']['text'] + ' NC1: a pointer parameter that a parser function compares with NULL somewhere is dereferenced only on '
+                     'paths that passed the non-NULL outcome of such a test (per-path branch facts plus equality facts on discriminator fields '
+                     'such as cbdata->otype, killed by assignments and by callees that may write them).')
